@@ -421,6 +421,16 @@ class BoboDecider(BoboEngineTask,
                 for i in sorted(remind, reverse=True):
                     del remlist[i]
 
+            # The local run of a singleton pattern may have replaced more
+            # than one remote run in the lists above (and a list may name a
+            # run twice): report each completed or halted run only once.
+            for remlist in (completed, halted):
+                unique: List[BoboRunSerial] = []
+                for runremote in remlist:
+                    if not any(runremote.run_id == u.run_id for u in unique):
+                        unique.append(runremote)
+                remlist[:] = unique
+
             # Notify subscribers
             for subscriber in self._subscribers:
                 subscriber.on_decider_update(
